@@ -1005,6 +1005,8 @@ def run_C18(rng, tier):
         r, xs = gen_stream(rng, L, "walk", positive=True, grid=8)
         fc.append(Case.simple(d, xs, {"view": name, "regime": "long", "model": False, "mode": "f64"}))
         mem.append(d)
+        if name in WINDOWED or name in ("Roofing", "Pfe", "Eft"):
+            mem.append(mk_view(rng, name, rng.choice([E, ("Sma", 60, E)]), n=33 + rng.below(30)))     # large window / inner view silent for a while
     run_impl(fc, mode="f64")
     viols += O.c18_pop(fc, pop_bound, long=True)
     viols += O.c18_mem(mem, 2000 if tier == "quick" else 250000)
